@@ -400,6 +400,8 @@ func runC01(c *Ctx) {
 
 	c.rule("C01.O1", dirtyListTypestateDoc, func() { c.dirtyListTypestate() })
 
+	c.rule("C01.O9", checkpointCursorDoc, func() { c.checkpointCursorWithStore() })
+
 	c.rule("C01.V5", "a fork cannot displace a checkpointed header: the fork height is measured against the last checkpoint the accepted chain has passed: "+checkpointFloorDoc, func() { c.checkpointFloor() })
 
 	c.rule("C01.V8", "a side branch is validated at its own heights: a branch header checked with the wrong parent height sees the wrong retarget boundary and is accepted with difficulty bits the retarget rules do not allow: "+branchOwnAncestorsDoc, func() { c.branchOwnAncestors() })
@@ -940,6 +942,64 @@ func (c *Ctx) lightCtxNode() {
 }
 
 const dirtyListTypestateDoc = "dirty-list typestate in handleHeadersMsg: once a validated header has been pushed onto the in-memory header list (which later headers are validated against), every path to a function exit either commits the batch (final WriteHeaders succeeded) or re-seeds the list from the store (ResetHeaderState); edges that are infeasible after a push are pruned with their justification"
+
+const checkpointCursorDoc = "the checkpoint cursor moves only with the store: in handleHeadersMsg nextCheckpoint is stored only where the batch can no longer be abandoned - behind a store to nextCheckpoint no path reaches an abandon step (a re-seeding of the header list from the store: the batch was dropped, the store is still below the verified checkpoint) unless nextCheckpoint is derived again on the way; otherwise the height of the checkpoint just passed is never compared again and any valid-work header is stored there"
+
+// checkpointCursorWithStore: see checkpointCursorDoc.
+func (c *Ctx) checkpointCursorWithStore() {
+	fn := c.fn(fnHandleHeaders)
+	next := c.field("neutrino", "blockManager", "nextCheckpoint")
+	resetM := c.method("headerlist", "Chain", "ResetHeaderState")
+	hl := c.field("neutrino", "blockManager", "headerList")
+	onList := func(in ssa.Instruction) bool {
+		cc := ir.CallOf(in)
+		return cc != nil && callTo(resetM)(in) && cc.IsInvoke() && loadsField(hl)(cc.Value)
+	}
+	// abandon steps: a direct reset of the header list, or a helper that
+	// resets it without deriving nextCheckpoint again
+	helpers := map[*types.Func]bool{}
+	for _, f := range c.P.Funcs {
+		obj, _ := f.Object().(*types.Func)
+		if obj == nil || f == fn || f.Parent() != nil {
+			continue
+		}
+		if len(find(f, onList)) > 0 && len(find(f, storeToField(next))) == 0 {
+			helpers[obj] = true
+		}
+	}
+	isAbandon := func(in ssa.Instruction) bool {
+		if onList(in) {
+			return true
+		}
+		cc := ir.CallOf(in)
+		if cc == nil {
+			return false
+		}
+		cal := ir.Resolve(cc)
+		return cal.Func != nil && helpers[cal.Func]
+	}
+	construct := c.nm(fn) + " | no abandon step is reachable behind a store to nextCheckpoint"
+	stores := find(fn, storeToField(next))
+	if len(stores) == 0 {
+		c.fail(construct, c.P.Pos(fn.Pos()), "handleHeadersMsg no longer stores nextCheckpoint")
+		return
+	}
+	var bad []string
+	for _, st := range stores {
+		ir.WalkAfter(st, nil, func(in ssa.Instruction) bool {
+			if in != st && storeToField(next)(in) {
+				return false
+			}
+			if isAbandon(in) {
+				bad = append(bad, c.at(st)+" -> "+c.at(in))
+				return false
+			}
+			return true
+		})
+	}
+	sort.Strings(bad)
+	c.verdict(len(bad) == 0, construct, c.P.Pos(fn.Pos()), fmt.Sprintf("%d store(s) to nextCheckpoint, none followed by an abandon step", len(stores)), "nextCheckpoint is moved on while the batch can still be dropped (store -> abandon step): "+join(bad)+": after the drop the store is below the checkpoint and the cursor beyond it", c.ats(stores)...)
+}
 
 // dirtyListTypestate: see dirtyListTypestateDoc.
 func (c *Ctx) dirtyListTypestate() {
